@@ -222,3 +222,73 @@ def stream_word(rng, thumb_bias=0.5):
         for _ in range(nb):
             w ^= 1 << rng.randrange(32)
     return w
+
+
+# ------------------------------------------------------------------ correlated multi-instruction idioms ("macros")
+
+def _t16(w):
+    return w << 16 | 0xBF00 if w <= 0xFFFF else w
+
+
+def macro(rng, thumb):
+    """a short sequence of RELATED instructions (same base register, matching pairs) as stream entries: single random words
+    almost never form these, yet state such as exclusive monitors, IT blocks, stack frames and saved PSRs only exists across them"""
+    r = lambda: rng.randrange(0, 13)
+    k = rng.randrange(8)
+    rn, rt, rd, rx = r(), r(), r(), r()
+    if k == 0 or k == 1:
+        size = rng.choice(['w', 'w', 'b', 'h'])
+        if thumb:
+            ld = {'w': 0xE8500F00 | rn << 16 | rt << 12, 'b': 0xE8D00F4F | rn << 16 | rt << 12, 'h': 0xE8D00F5F | rn << 16 | rt << 12}[size]
+            st = {'w': 0xE8400000 | rn << 16 | rx << 12 | rd << 8, 'b': 0xE8C00F40 | rn << 16 | rx << 12 | rd, 'h': 0xE8C00F50 | rn << 16 | rx << 12 | rd}[size]
+            mid = rng.choice([[], [], [_t16(T.ldst_imm('str', rx & 7, rn & 7, 0))], [T.str_w(rx, rn, 0)], [0xF3BF8F2F], [0xE8500F00 | rn << 16 | rd << 12 | 1], [_t16(T.mov_imm(rx & 7, 1))]])
+        else:
+            ld = {'w': 0xE1900F9F, 'b': 0xE1D00F9F, 'h': 0xE1F00F9F}[size] | rn << 16 | rt << 12
+            st = {'w': 0xE1800F90, 'b': 0xE1C00F90, 'h': 0xE1E00F90}[size] | rn << 16 | rd << 12 | rx
+            mid = rng.choice([[], [], [A.str_(rx, rn, 0)], [A.ldst(0, rx, rn, 1, byte=1)], [0xF57FF01F], [0xE1900F9F | rn << 16 | rd << 12], [A.mov_imm(rx, 1)]])
+        seq = [ld] + mid + [st]
+        if rng.random() < 0.3:
+            seq.append(st)
+        return seq
+    if k == 2 and thumb:
+        n = rng.randrange(1, 5)
+        fc = rng.randrange(15)
+        mask = (rng.getrandbits(3) << 1 | 1) << (4 - n) & 0xF if fc != 14 else 1 << (4 - n)
+        body = [_t16(rng.choice([T.mov_imm(rng.randrange(8), rng.getrandbits(8)), T.add_imm8(rng.randrange(8), 1), T.dp(rng.getrandbits(4), rng.randrange(8), rng.randrange(8)),
+                                 T.ldst_imm('ldr', rng.randrange(8), rn & 7, 0), T.svc(1), T.udf(1)])) for _ in range(n)]
+        return [_t16(T.it(fc, mask or 8))] + body
+    if k == 3:
+        lst = rng.getrandbits(8) or 1
+        return [_t16(T.push(lst)), _t16(T.pop(lst))] if thumb else [A.push(lst), A.pop(lst)]
+    if k == 4:
+        mode = rng.choice([0x11, 0x12, 0x13, 0x17, 0x1b, 0x1f, 0x16])
+        if thumb:
+            return [T.srs(mode, db=1, w=1), T.rfe(13, db=0, w=1)]
+        p_, u_ = rng.getrandbits(1), rng.getrandbits(1)
+        return [A.srs(mode, p=p_, u=u_, w=1), A.rfe(13, p=1 - p_, u=1 - u_, w=1)]
+    if k == 5:
+        return [T.mrs(rt), T.msr(rt, rng.getrandbits(4) or 9)] if thumb else [A.mrs(rt), A.msr_reg(rt, rng.getrandbits(4) or 9)]
+    if k == 6:
+        lst = (rng.getrandbits(8) & ~(1 << (rn & 7))) or 2
+        if thumb:
+            return [T.ldstm_w(0, rn, lst, 0, 1), T.ldstm_w(1, rn, lst, 1, 1)]
+        return [A.ldstm(0, rn, lst, p=0, u=1, w=1), A.ldstm(1, rn, lst, p=1, u=0, w=1)]
+    w = vocab_words(rng, thumb)
+    if thumb:
+        w = _t16(w)
+    return [w, w]
+
+
+def stream_words(rng, n, thumb_bias, p_macro=0.08, valid_bias=0.0):
+    """n stream entries: single words (random / bit-flipped / valid vocabulary) interleaved with macros"""
+    out = []
+    while len(out) < n:
+        if rng.random() < p_macro:
+            out += macro(rng, rng.random() < thumb_bias)
+        elif rng.random() < valid_bias:
+            th = rng.random() < thumb_bias
+            w = vocab_words(rng, th)
+            out.append(_t16(w) if th else w)
+        else:
+            out.append(stream_word(rng, thumb_bias))
+    return out[:n]
